@@ -4,6 +4,14 @@
 #define VERIF_HARNESS_H
 #include <stdlib.h>
 
+#ifndef SIZE_TY
+#define SIZE_TY unsigned long           /* the allocator_interface's size_ty of the configuration */
+#endif
+SIZE_TY nondet_size_ty (void);
+#ifndef CFG_SRC_BOUND
+#define CFG_SRC_BOUND (1ul << 50)        /* length bound of the caller's ranges (independent of size_type) */
+#endif
+
 static void ghost_init (void)
 {
   /* configuration constants: arbitrary within the configuration class */
@@ -75,7 +83,7 @@ static struct svb *mk_svb_raw (void)
 static const Elem *mk_src_range (unsigned long *len)
 {
   unsigned long n = nondet_ulong (), k = nondet_ulong (), m = nondet_ulong ();
-  __CPROVER_assume (n <= CFG_ALLOC_MAX_BOUND && k <= n && m <= n - k);
+  __CPROVER_assume (n <= CFG_SRC_BOUND && k <= n && m <= n - k);
   Elem *src = malloc (n * ESZ);
   __CPROVER_assume (src != 0);
   *len = m;
